@@ -183,7 +183,7 @@ claim('C09', 'SCC analysis of the resolved call graph of erg_parser for depth gu
 
 claim('C10', 'effect reachability over the resolved call graph from the parser entry points; ADT rule on derived equality of the syntax tree; filter-dominance and comment-discrimination rules on the lexer',
       'Decides (R1) determinism as absence of clocks / RNG / randomly seeded hashers / environment reads / mutable statics in everything reachable from the lexer, parser and '
-      'desugarer, (R2) that the AST equality through which layout-insensitivity is observed ignores positions (5 known findings: derived PartialEq over Location fields), '
+      'desugarer, (R2) that the AST equality through which layout-insensitivity is observed ignores positions (the 5 nodes that derived PartialEq over Location fields at the start were repaired), '
       '(R3) that every Indent / Dedent decision of the lexer lies behind the filter for lines holding only spaces or a line comment, and (R4) that every decision on `#` separates `#[`.',
       'That line continuations and redundant parentheses yield the same tree is behaviour of the parser and is not decided.',
       'DESIGN.md §3 C10')
